@@ -54,6 +54,8 @@ def decValue (g : List Char) : Nat := g.foldl (fun acc c => acc * 10 + (c.toNat 
 /-- Blanks only (space / tab). -/
 def Blanks (p : List Char) : Prop := ∀ c ∈ p, isBlank c = true
 
+instance (p : List Char) : Decidable (Blanks p) := by unfold Blanks; infer_instance
+
 /-- `g` is the digit string `d` with blanks before and after it: the text of a repetition bound
 between the brace / comma delimiters, as in `a{ 1 , 2 }` (`int()` strips the blanks). -/
 def PadDigits (g d : List Char) : Prop :=
